@@ -6,6 +6,10 @@ def _cfg(q, t):
 
 
 PLAN_ENTRY = {'stages': [
+    # growth beyond the listed properties (never a verdict): MeshCollisionSet as a state machine
+    {'name': 'collision_set', 'extra': True,
+     'mc': [{'module': 'MC_Collide', 'cfg': {'quick': 'MC_Collide.cfg', 'thorough': 'MC_Collide.cfg'}, 'workers': 4}],
+     'gens': ['gen_collide'], 'trace': 'Trace_Collide'},
     # depth-1 behaviours over every criterion / mode / start (exhaustive), deep random histories (simulation),
     # L2 model of the library's algorithm (no cases, model checking only), seeded random larger scenes
     {'name': 'select', 'stateful': True,
@@ -244,4 +248,38 @@ def gen_c14_cfi(rnd, tier):
             vpos = [list(v) for v in vpos] + [[9, 9, 9], [-7, 3, 5]][: 1 + (k % 2)]
         rnd.shuffle(idx)
         out.append({'m': 'sel', 'op': 'cfi', 'sc': rnd.choice((0, -10, 4)), 'vpos': vpos, 'faces': faces, 'idx': idx})
+    return out
+
+
+def gen_collide(rnd, tier):
+    """random histories of a MeshCollisionSet: adds, exceptions (also for ids that do not exist yet), checks with shifts of the
+    moving meshes; positions that would make two boxes touch exactly are not generated"""
+    out = []
+    for _ in range(300 if tier == 'quick' else 6000):
+        ops, kinds, xs = [], [], []
+        for _k in range(rnd.randint(2, 9)):
+            c = rnd.random()
+            if (c < 0.4 and len(kinds) < 5) or not kinds:
+                kinds.append(rnd.random() < 0.6); xs.append(rnd.choice((0, 2, 8, 10, 16)))
+                ops.append({'k': 'add', 'moving': kinds[-1], 'x': xs[-1], 'a': 0, 'b': 0, 'tx': [], 'first': False})
+            elif c < 0.6:
+                a, b = rnd.randint(0, 4), rnd.randint(0, 4)
+                ops.append({'k': 'exc', 'moving': False, 'x': 0, 'a': a, 'b': b, 'tx': [], 'first': False})
+            else:
+                for _try in range(20):
+                    tx = [[i, rnd.choice((0, 2, -6, 6, -2))] for i in range(len(kinds)) if kinds[i] and rnd.random() < 0.8]
+                    if rnd.random() < 0.2 and tx:
+                        tx.append([tx[0][0], rnd.choice((0, 2, -6))])           # the same id twice: the later entry wins
+                    sh = {}
+                    for i, t in tx:
+                        sh[i] = t
+                    pos = [xs[i] + sh.get(i, 0) for i in range(len(kinds))]
+                    if all(abs(pos[i] - pos[j]) != 4 for i in range(len(pos)) for j in range(i)):
+                        break
+                else:
+                    continue
+                if rnd.random() < 0.05:
+                    tx.append([len(kinds) + rnd.randint(0, 2), 0])            # an id that does not exist: error
+                ops.append({'k': 'check', 'moving': False, 'x': 0, 'a': 0, 'b': 0, 'tx': tx, 'first': rnd.random() < 0.4})
+        out.append({'m': 'collide', 'op': 'history', 'ops': ops})
     return out
